@@ -111,6 +111,26 @@ func (a *statAcc) addRun(p *sdl.Program, o *model.Obs, nontrivial bool) {
 		a.Probes["scheduler-choice-among-several-parked"]++
 	}
 	probeReg(a.Probes, o)
+	if len(o.RegOwner) != 0 {
+		a.Probes["rejected-registration-owner-read"]++
+	}
+	if len(o.CfgLate) != 0 && o.OK() {
+		for _, i := range p.Instances {
+			if i.SetKey != "" {
+				a.Probes["lazy-component-created-after-configuration-change"]++
+				break
+			}
+		}
+	}
+	for h, fs := range o.Points {
+		for _, ts := range fs {
+			for _, x := range ts {
+				if x != h && strings.HasPrefix(x, "sub:") && o.OK() && subOf(p, x) == h {
+					a.Probes["holder-holds-its-own-early-substitute"]++
+				}
+			}
+		}
+	}
 	// observation outside every claimed property: a component re-created after a failed
 	// attempt receives duplicate slice elements (candidates accumulate on the definition)
 	for _, c := range o.Cont {
@@ -526,4 +546,17 @@ func propertyForFamily(f string) string {
 		return "C14"
 	}
 	return "C01"
+}
+
+// subOf returns the instance a substitute object id ("sub:<slot>") stands for.
+func subOf(p *sdl.Program, obj string) string {
+	slot := strings.TrimPrefix(obj, "sub:")
+	for _, pr := range p.Procs {
+		for _, r := range pr.Rules {
+			if r.Sub == slot {
+				return r.Target
+			}
+		}
+	}
+	return ""
 }
